@@ -257,3 +257,45 @@ Theorem C17_script_real_table_bytes : forall ls e r lines rs,
   results s = firstn (length (results s)) rs.
 Proof. exact script_real_table_bytes. Qed.
 Print Assumptions C17_script_real_table_bytes.
+
+(* Queue-level conservation for EVERY label sequence - flush timeouts
+   (ttimeoutlen / timeoutlen) and closing the input included - with handlers
+   that feed key presses allowed: the key presses popped from input_queue
+   (ghost list rpops) ++ type-ahead store ++ input_queue are, reports apart,
+   exactly the key presses decoded, in order: between the parser and the key
+   processor nothing is lost, duplicated or reordered across any number of
+   prompts, and nothing is ever waiting to be pushed back.  (What is popped
+   reaches handlers or waits in the key buffer: C17_conservation states that
+   part as an equation for handlers that feed nothing.)
+   Hypotheses: cpr_silent and no_pushback, proved for the real table. *)
+Theorem C17_queue_conservation : forall (E bid res PS : Type)
+  (lookup lookup_scan : E -> list kp -> option bid) (waits : E -> list kp -> bool)
+  (eff : bid -> list kp -> E -> E * option res) (is_cprh : bid -> bool) (cpr_lookup : E -> option bid)
+  (feeds : bid -> list kp -> E -> list kp) (restart : E -> E)
+  (pfeed : str -> PS -> PS * list kp) (pflush : PS -> PS * list kp) (res_eof : res),
+  let run := @run E bid res PS lookup lookup_scan waits eff is_cprh cpr_lookup feeds restart pfeed pflush res_eof in
+  let init := @init E bid res PS in
+  cpr_silent eff cpr_lookup feeds -> no_pushback lookup lookup_scan waits eff is_cprh cpr_lookup feeds ->
+  forall ls e p r,
+  let s := run ls (init e p r) in
+  nc (rpops (co s)) ++ nc (ikeys (store s)) ++ nc (ikeys (queue s)) = nc (decoded s) /\ pb (co s) = [].
+Proof. exact queue_conservation. Qed.
+Print Assumptions C17_queue_conservation.
+
+(* ... and for the regenerated table of a default session over C03's byte-level
+   input, with no hypothesis: every schedule, timeouts and EOF included. *)
+Theorem C17_conservation_real_table : forall ls e r,
+  let s := @run estate bid result vstate d_lookup d_lookup_scan d_waits e_eff e_is_cprh d_cpr_lookup e_feeds
+                e_restart read_keys flush_keys REof ls (@init estate bid result vstate e vinit r) in
+  nc (rpops (co s)) ++ nc (ikeys (store s)) ++ nc (ikeys (queue s)) = nc (decoded s) /\ pb (co s) = [].
+Proof. exact conservation_real_table. Qed.
+Print Assumptions C17_conservation_real_table.
+
+(* On the real table one activation never reaches the model's "nested feed"
+   give-up branch ([deep]): the only fed key press is ControlM and no feeding
+   row can match it.  (The generic theorems follow ONE level of feeding.) *)
+Theorem C17_real_table_no_deep : forall (c : core estate bid result) it,
+  cph c = CRun result -> pb c = [] -> (kbuf c = [] \/ d_waits (est c) (kbuf c) = true) ->
+  deep (deliver_d d_lookup d_lookup_scan d_waits e_eff e_is_cprh d_cpr_lookup e_feeds it c) = deep c.
+Proof. exact d_no_deep. Qed.
+Print Assumptions C17_real_table_no_deep.
